@@ -31,12 +31,12 @@
 (*        channel (uninstall may close it in between: panic)               *)
 (*   D12  a publishTopic goroutine whose source was closed closes the      *)
 (*        subscribers of, and deletes, a topic that was re-registered      *)
-(*   D18  subscribe() joins an existing topic without registering in the   *)
+(*   D25  subscribe() joins an existing topic without registering in the   *)
 (*        index: the uninstall of the installing subscription tears the    *)
 (*        topic down under the joined ones                                 *)
-(*   D19  the consumer goroutine of NewPendingTransactionFilter does not   *)
+(*   D26  the consumer goroutine of NewPendingTransactionFilter does not   *)
 (*        return after <-errCh: it spins on filtersMu forever              *)
-(*   D20  indexer service: both loops re-broadcast the quit signal into a  *)
+(*   D27  indexer service: both loops re-broadcast the quit signal into a  *)
 (*        channel of capacity 1; the second sender blocks forever          *)
 (* The real tree is `Known = AllDefects` until the proposed fixes are in.  *)
 (***************************************************************************)
@@ -52,14 +52,14 @@ CONSTANTS
   MaxFires,     \* filter deadline timers that fire
   Api,          \* TRUE: clients use PublicFilterAPI (NewBlockFilter...), FALSE: EventSystem directly
   Known,        \* enabled deviations
-  SpinTopics,   \* topics whose API consumer is the pending-transaction one (D19)
+  SpinTopics,   \* topics whose API consumer is the pending-transaction one (D26)
   BufCap,       \* cap of the modelled backlog of a subscriber channel
   RespCap,      \* cap of the modelled backlog of ResponsesCh (senders blocked in the send)
   WithIndexer,  \* model the indexer service loops
   MaxHeaders,   \* block headers delivered to the indexer service
   TraceMode     \* TRUE in trace validation: admit the hook-order commutations of a rendez-vous (sender's hook first)
 
-AllDefects == {"D11", "D12", "D18", "D19", "D20"}
+AllDefects == {"D11", "D12", "D25", "D26", "D27"}
 ASSUME Known \subseteq AllDefects
 
 Topics  == 1..NTopics
@@ -145,7 +145,7 @@ el_wait:
       ft := subTopic[f];
       idxW := TRUE;
       index[ft] := index[ft] \cup {f};
-      if ("D18" \notin Known /\ topicChans[ft] # 0) {
+      if ("D25" \notin Known /\ topicChans[ft] # 0) {
         \* property-respecting design: an install for a topic that exists only registers in the index
         goto el_i_unlock0;
       };
@@ -271,12 +271,12 @@ c_topics:                                           \* es.subscribe: existingSub
     await ~topW;
     with (tt \in Topics) { ct := tt };
     subTopic[cs] := ct;
-    if ("D18" \notin Known) {
+    if ("D25" \notin Known) {
       \* property-respecting design: every subscription is installed (the Topics() snapshot decides nothing)
       installQ := installQ \cup {cs}; goto c_bsub1;
     } else {
       seen := busTopics[ct] # 0;
-      if (seen) { devUsed := devUsed \cup {"D18"}; goto c_bsub1 };
+      if (seen) { devUsed := devUsed \cup {"D25"}; goto c_bsub1 };
     };
 c_inst:                                             \* [cometWSClient.Subscribe]; es.install <- sub
     installQ := installQ \cup {cs};
@@ -366,7 +366,7 @@ co_closed:                                          \* filtersMu.Lock; delete(ap
 co_err:                                             \* filtersMu.Lock; delete(api.filters, id); Unlock; [return]
       await fmu = 0;
       filters := filters \ {me};
-      if (~("D19" \in Known /\ subTopic[me] \in SpinTopics)) { goto co_exit } else { devUsed := devUsed \cup {"D19"} };
+      if (~("D26" \in Known /\ subTopic[me] \in SpinTopics)) { goto co_exit } else { devUsed := devUsed \cup {"D26"} };
     }
   };
 co_exit:                                            \* deferred cancelSubs()
@@ -425,7 +425,7 @@ ih_sig:        if (newBlockSig = 0) { newBlockSig := 1 } } }
     or { await quitBuf = 1; quitBuf := 0; goto ih_q };
   };
 ih_q:                                               \* quitSignalReBroadcast <- struct{}{} (cap 1)
-  if ("D20" \in Known) { await quitBuf = 0; quitBuf := 1 }
+  if ("D27" \in Known) { await quitBuf = 0; quitBuf := 1 }
   else { quitBuf := 1 };
 ih_done: skip;
 }
@@ -456,7 +456,7 @@ im_index:                                           \* for i := lastIndexed+1; i
     }
   };
 im_q:
-  if ("D20" \in Known) { await quitBuf = 0; quitBuf := 1 }
+  if ("D27" \in Known) { await quitBuf = 0; quitBuf := 1 }
   else { quitBuf := 1 };
 im_done: skip;
 }
@@ -597,7 +597,7 @@ el_wait == /\ pc[EL] = "el_wait"
                  /\ ft' = subTopic[f']
                  /\ idxW' = TRUE
                  /\ index' = [index EXCEPT ![ft'] = index[ft'] \cup {f'}]
-                 /\ IF "D18" \notin Known /\ topicChans[ft'] # 0
+                 /\ IF "D25" \notin Known /\ topicChans[ft'] # 0
                        THEN /\ pc' = [pc EXCEPT ![EL] = "el_i_unlock0"]
                        ELSE /\ pc' = [pc EXCEPT ![EL] = "el_i_addchk"]
                  /\ UNCHANGED <<uninstallQ, ech, inUse>>
@@ -975,13 +975,13 @@ c_topics(self) == /\ pc[self] = "c_topics"
                   /\ \E tt \in Topics:
                        ct' = [ct EXCEPT ![self] = tt]
                   /\ subTopic' = [subTopic EXCEPT ![cs[self]] = ct'[self]]
-                  /\ IF "D18" \notin Known
+                  /\ IF "D25" \notin Known
                         THEN /\ installQ' = (installQ \cup {cs[self]})
                              /\ pc' = [pc EXCEPT ![self] = "c_bsub1"]
                              /\ UNCHANGED << devUsed, seen >>
                         ELSE /\ seen' = [seen EXCEPT ![self] = busTopics[ct'[self]] # 0]
                              /\ IF seen'[self]
-                                   THEN /\ devUsed' = (devUsed \cup {"D18"})
+                                   THEN /\ devUsed' = (devUsed \cup {"D25"})
                                         /\ pc' = [pc EXCEPT ![self] = "c_bsub1"]
                                    ELSE /\ pc' = [pc EXCEPT ![self] = "c_inst"]
                                         /\ UNCHANGED devUsed
@@ -1321,10 +1321,10 @@ co_closed(self) == /\ pc[self] = "co_closed"
 co_err(self) == /\ pc[self] = "co_err"
                 /\ fmu = 0
                 /\ filters' = filters \ {me[self]}
-                /\ IF ~("D19" \in Known /\ subTopic[me[self]] \in SpinTopics)
+                /\ IF ~("D26" \in Known /\ subTopic[me[self]] \in SpinTopics)
                       THEN /\ pc' = [pc EXCEPT ![self] = "co_exit"]
                            /\ UNCHANGED devUsed
-                      ELSE /\ devUsed' = (devUsed \cup {"D19"})
+                      ELSE /\ devUsed' = (devUsed \cup {"D26"})
                            /\ pc' = [pc EXCEPT ![self] = "co_sel"]
                 /\ UNCHANGED << crashed, busTopics, busSubs, topW, subCh, idxR, 
                                 idxW, index, topicChans, chans, nextChan, 
@@ -1486,7 +1486,7 @@ ih_sig == /\ pc[IH] = "ih_sig"
                           h, lb, sent >>
 
 ih_q == /\ pc[IH] = "ih_q"
-        /\ IF "D20" \in Known
+        /\ IF "D27" \in Known
               THEN /\ quitBuf = 0
                    /\ quitBuf' = 1
               ELSE /\ quitBuf' = 1
@@ -1597,7 +1597,7 @@ im_index == /\ pc[IM] = "im_index"
                             ct, seen, ok, polls, found, me, h, lb, sent >>
 
 im_q == /\ pc[IM] = "im_q"
-        /\ IF "D20" \in Known
+        /\ IF "D27" \in Known
               THEN /\ quitBuf = 0
                    /\ quitBuf' = 1
               ELSE /\ quitBuf' = 1
